@@ -59,7 +59,7 @@ func Spec(prop, tier string) *core.CheckSpec {
 			},
 			Real:   realAll,
 			Stub:   []string{"goroutine scheduling decisions (controlled scheduler)", "host callbacks emit/probe"},
-			Assume: []string{"heap bound M3 uses runtime.MemStats.TotalAlloc of the worker process: 64*M + 256 MiB per run"},
+			Assume: []string{"heap bound M3 uses runtime.MemStats.TotalAlloc of the worker process: 16*M + 96 MiB per run (the unchanged tree stays under 45 MiB on every template)"},
 		}
 	case "C10":
 		return &core.CheckSpec{
